@@ -155,9 +155,12 @@ def run_check(prop, tier, seed):
     t0 = time.time()
     pid = prop.ID
     thorough = tier == "thorough"
+    os.environ["HX_TIER"] = tier
     out_lines = []
     # ---- proof leg
+    legs = {}
     pl = proof_leg(prop.LEAN_MODULE)
+    legs["proof"] = round(time.time() - t0, 1)
     if thorough and pl["ok"]:
         lc = leanchecker_leg(lean_files_of(prop.LEAN_MODULE))
         pl["leanchecker"] = lc
@@ -187,11 +190,13 @@ def run_check(prop, tier, seed):
         for sd in seeds:
             n = n_quick * (4 if thorough else 1) * BUDGET
             sz = size * (3 if thorough else 1)
+            t1 = time.time()
             try:
                 r = corr.run_component(comp, sd, n, sz, tz=opts.get("tz"))
             except Exception as e:  # machinery failure, not a verdict
                 print(f"INTERNAL: correspondence {comp} failed: {e!r}", file=sys.stderr)
                 raise
+            legs[f"tie:{comp}"] = round(legs.get(f"tie:{comp}", 0) + time.time() - t1, 1)
             r["seed"] = sd
             r["size"] = sz
             tie.append(r)
@@ -218,7 +223,11 @@ def run_check(prop, tier, seed):
         "boost": BUDGET * (1 if (pl["ok"] and tie_ok) else 2) * (2 if (core_changed and pl["ok"] and tie_ok) else 1),
         "broken": [r["component"] for r in tie if r["disagreements"]],
     }
+    t1 = time.time()
     orc = prop.oracle(ctx)
+    legs["oracle"] = round(time.time() - t1, 1)
+    if os.environ.get("HX_TIMING"):
+        print("TIMING", json.dumps(legs), file=sys.stderr)
     # ---- known findings
     known = [k for k in load_known() if k["property"] == pid]
     open_known = [k for k in known if k.get("status") == "open"]
@@ -325,6 +334,7 @@ def run_check(prop, tier, seed):
             "oracle": {k: orc[k] for k in ("evaluations", "distinct_nontrivial") if k in orc},
             "distribution": {**dist, **{f"oracle:{k}": v for k, v in orc.get("distribution", {}).items()}},
             "changed_since_baseline": {k: v[:6] for k, v in list(changed_units.items())[:12]},
+            "leg_wall_s": legs,
             "known_findings_reported": sorted(known_hits),
             "corpus_witnesses_replayed": corpus_n,
             "partial": getattr(prop, "PARTIAL", ""),
